@@ -11,7 +11,7 @@ func init() { Registry["C11"] = checkC11 }
 
 // C11 — segmenting / resegmenting / multiplexing conserve every sample (error-discipline clause only).
 func checkC11(c *Ctx, r *Report) {
-	r.Explanation = "(DEP) in examples/segmenter every AddFullSampleToTrack / AddSampleToTrack call passes the output track id the tool assigned, not an id read from a trak box; (L-SHAREDCHILD) no AddChild call inside a loop adds a box that was created before the loop (one tfdt shared by all trafs of a multi-track fragment); Structural clauses: (L-DEADFIELD) in package mp4 and the example tools no local struct variable (the sample flags being translated) is overwritten as a whole after one of its fields was assigned with no read in between; (L-LOOPALIAS) in the sample-moving loops of package mp4 and the example tools, a slice kept beyond the iteration (sample data stored into a FullSample, an element appended to a list) does not share storage with a buffer carried round the loop and rewritten in later iterations; (O-LAST) the segmenter's last sample interval ends at the track's sample count itself (ends are inclusive); (O-TFDT) a fragment sets a track's decode time only while the track's first run is empty; (O-FALLBACK) a default duration handed to TrunBox.Duration/CommonSampleDuration is resolved from tfhd and trex; (W-MDATHDR) sample bytes are located from the mdat box's own header length; (O-INDEP) first/last chunk clipping in the lazy copy is independent; (O-ERR) in examples/segmenter, examples/resegmenter, examples/combine-segs and mp4.MediaSegment.Fragmentify, the error returned by every sample-fetching or sample-adding call is looked at " +
+	r.Explanation = "(O-EVERY, adds) a Fragment method that takes one Sample / FullSample returns nil only after the call that adds it to a trun; (DEP) in examples/segmenter every AddFullSampleToTrack / AddSampleToTrack call passes the output track id the tool assigned, not an id read from a trak box; (L-SHAREDCHILD) no AddChild call inside a loop adds a box that was created before the loop (one tfdt shared by all trafs of a multi-track fragment); Structural clauses: (L-DEADFIELD) in package mp4 and the example tools no local struct variable (the sample flags being translated) is overwritten as a whole after one of its fields was assigned with no read in between; (L-LOOPALIAS) in the sample-moving loops of package mp4 and the example tools, a slice kept beyond the iteration (sample data stored into a FullSample, an element appended to a list) does not share storage with a buffer carried round the loop and rewritten in later iterations; (O-LAST) the segmenter's last sample interval ends at the track's sample count itself (ends are inclusive); (O-TFDT) a fragment sets a track's decode time only while the track's first run is empty; (O-FALLBACK) a default duration handed to TrunBox.Duration/CommonSampleDuration is resolved from tfhd and trex; (W-MDATHDR) sample bytes are located from the mdat box's own header length; (O-INDEP) first/last chunk clipping in the lazy copy is independent; (O-ERR) in examples/segmenter, examples/resegmenter, examples/combine-segs and mp4.MediaSegment.Fragmentify, the error returned by every sample-fetching or sample-adding call is looked at " +
 		"(tested, returned or wrapped) on every path from the call to a function exit or to the next loop iteration; a path on which the co-returned value (e.g. an empty sample list) decides to continue before the error is tested " +
 		"reports success with samples missing. Sample conservation otherwise (interval arithmetic, sync-sample starts) is behaviour of tool arithmetic and is NOT decided."
 	ruleOERR(c, r, "O-ERR", func(f *ssa.Function) bool {
@@ -25,6 +25,9 @@ func checkC11(c *Ctx, r *Report) {
 		return strings.HasPrefix(n, "examples/segmenter.") || strings.HasPrefix(n, "examples/resegmenter.") || strings.HasPrefix(n, "examples/combine-segs.") || strings.HasPrefix(n, "examples/multitrack.") || strings.HasPrefix(n, "mp4.")
 	}); n < 10 {
 		r.Undecided("L-LOOPALIAS", "scope", "", fmt.Sprintf("only %d loops that keep slices beyond the iteration found", n))
+	}
+	if n := ruleSampleAlwaysAdded(c, r); n < 4 {
+		r.Undecided("O-EVERY", "scope:adds", "", fmt.Sprintf("only %d Fragment methods taking one sample found", n))
 	}
 	if n := ruleSegmenterOutputTrackID(c, r); n < 3 {
 		r.Undecided("DEP", "scope:output-track-id", "", fmt.Sprintf("only %d AddFullSampleToTrack / AddSampleToTrack calls found in examples/segmenter", n))
